@@ -31,7 +31,7 @@ use std::{
     iter::{Enumerate, FusedIterator},
     mem::take,
     ops::{Deref, DerefMut},
-    sync::Arc,
+    sync::{Arc, Weak},
 };
 use tokio::sync::{RwLock, RwLockReadGuard, oneshot, watch};
 use tracing::Instrument;
@@ -908,7 +908,10 @@ where
         let inner_task = inner.clone();
 
         // Process change events.
-        let tx_send = tx.clone();
+        // The task owns the relay sender, so that the relay channel is closed and
+        // subscribers of the mirror are notified when the task ends for any reason.
+        let tx_send = Arc::new(tx);
+        let tx = Arc::downgrade(&tx_send);
         exec::spawn(
             async move {
                 loop {
@@ -958,7 +961,7 @@ where
 /// A vector that is mirroring an observable vector.
 pub struct MirroredVec<T, Codec = crate::codec::Default> {
     inner: Arc<RwLock<Option<MirroredVecInner<T>>>>,
-    tx: rch::broadcast::Sender<VecEvent<T>, Codec>,
+    tx: Weak<rch::broadcast::Sender<VecEvent<T>, Codec>>,
     changed_rx: watch::Receiver<()>,
     _dropped_tx: oneshot::Sender<()>,
 }
@@ -1037,7 +1040,11 @@ where
     pub async fn subscribe(&self, buffer: usize) -> Result<VecSubscription<T, Codec>, RecvError> {
         let view = self.borrow().await?;
         let initial = view.clone();
-        let events = if view.is_done() { None } else { Some(self.tx.subscribe(buffer)) };
+        let events = if view.is_done() {
+            None
+        } else {
+            Some(self.tx.upgrade().ok_or(RecvError::Closed)?.subscribe(buffer))
+        };
 
         Ok(VecSubscription::new(VecInitialValue::new_value(initial), events))
     }
@@ -1052,7 +1059,11 @@ where
     pub async fn subscribe_incremental(&self, buffer: usize) -> Result<VecSubscription<T, Codec>, RecvError> {
         let view = self.borrow().await?;
         let initial = view.clone();
-        let events = if view.is_done() { None } else { Some(self.tx.subscribe(buffer)) };
+        let events = if view.is_done() {
+            None
+        } else {
+            Some(self.tx.upgrade().ok_or(RecvError::Closed)?.subscribe(buffer))
+        };
 
         Ok(VecSubscription::new(VecInitialValue::new_incremental(initial, Arc::new(default_on_err)), events))
     }
